@@ -23,9 +23,10 @@ import SqlfluffVerif.Driver.Sql
 import SqlfluffVerif.Driver.Shared
 import SqlfluffVerif.Driver.IterSeg
 import SqlfluffVerif.Driver.Skel
+import SqlfluffVerif.Driver.Rectify
 open SqlfluffVerif SqlfluffVerif.Proto SqlfluffVerif.Driver
 
-def handlers : List (List String → Option String) := [handlePos, handlePatch, handleDedupe, handleNoqa, handleSelect, handleMR, handleTreeSpec, handleLexer, handleLexSpec, handleSlices, handleExit, handleDiscovery, handleWritePath, handleConfig, handleSerialise, handleEdits, handleFixLoop, handleParseOpt, handleGuard, handleFunnel, handleSql, handleShared, handleIterSeg, handleSkel]
+def handlers : List (List String → Option String) := [handlePos, handlePatch, handleDedupe, handleNoqa, handleSelect, handleMR, handleTreeSpec, handleLexer, handleLexSpec, handleSlices, handleExit, handleDiscovery, handleWritePath, handleConfig, handleSerialise, handleEdits, handleFixLoop, handleParseOpt, handleGuard, handleFunnel, handleSql, handleShared, handleIterSeg, handleSkel, handleRectify]
 
 def handle (toks : List String) : String :=
   match toks with
